@@ -16,7 +16,7 @@ NAME = "highest_density_region"
 RULE = ("highest_density_region: all distributions of 1..4 samples over {0..3} and 5 samples over {0,1,3} (thorough: 1..6 over {0..3}) with positive total, four "
         "ascending dyadic fraction lists, both only_upper_part settings, buffer sizes 10 and 2; intervals compared "
         "exactly, amplitudes within 2^-22 relative (+2^-40 absolute) of the model's exact rational; cases with exactly "
-        "buffer_size+1 intervals are excluded (out-of-bounds write, known finding); non-trivial = >= 2 intervals for "
+        "buffer_size+1 intervals (the -1 marker since /repo 1da565c) are included; non-trivial = >= 2 intervals for "
         "some fraction or a fraction satisfied before the last level; distinct by (data, fractions, upper, buffer).")
 FRACTION_SETS = [
     [Fraction(1, 2)],
@@ -24,7 +24,7 @@ FRACTION_SETS = [
     [Fraction(1, 8), Fraction(7, 8)],
     [Fraction(1, 2), Fraction(1, 2), Fraction(15, 16)],
 ]
-# three intervals with _buffer_size = 2: _process_intervals_numba writes beyond res[fi, :, :2]
+# three intervals with _buffer_size = 2: the pinned code wrote beyond res[fi, :, :2] (fixed by /repo 1da565c)
 OOB_WITNESS = {"data": [1, 0, 1, 0, 1], "fractions": [[9, 10]], "upper": 0, "bs": 2}
 
 
@@ -119,9 +119,6 @@ def unit(ctx):
     for (data, fs, upper, bs), mo in zip(cases, mout):
         mexp = parse(mo)
         u.n += 1
-        if n_runs(data, fs, upper, mexp) == bs + 1:
-            u.tally("excluded:buffer_size+1_intervals")
-            continue
         out = impl(data, fs, upper, bs)
         u.tally("err" if isinstance(out, str) else ("overflow(-1)" if any(iv is None for iv, _ in out) else "ok"))
         if isinstance(out, list) and any(iv is not None and len(iv) >= 2 for iv, _ in out):
